@@ -17,10 +17,11 @@ theorem k_eciByValueFails_eq (reg : Registry) (v : Int) :
                                       | .ok _ => false
                                       | .error _ => true) := by
   simp only [Gen.K15.eciByValueFails, byValue]
-  by_cases h : v < 0 ∨ v ≥ 900
-  · have : (decide (v < 0) || decide (v ≥ 900)) = true := by simpa using h
-    simp [h, this]
-  · have : (decide (v < 0) || decide (v ≥ 900)) = false := by simpa using h
-    simp [h, this]
+  -- shape-robust: decide the model's test, split the GENERATED test, omega sorts the branches
+  by_cases h : v < 0 ∨ v ≥ 900 <;> simp only [h, if_true, if_false] <;> split <;> rename_i hc <;>
+    (try simp only [Bool.or_eq_true, Bool.and_eq_true, decide_eq_true_eq] at hc) <;>
+    first
+    | rfl
+    | (exfalso; omega)
 
 end Gzx.Obligations.K15
